@@ -1,2 +1,204 @@
-(* C11 - stub while the proofs are in progress *)
+(* C11 - Model values are immutable and behave as values (equality, hashing).
+   Property theorems only: each is closed by `exact` of a lemma proved in
+   proofs/Frozen*Proofs.v / FrozenMain.v, with Print Assumptions beneath it.
+
+   Vocabulary (model/Frozen.v): a store of mutable dicts/lists addressed by
+   handles; frozen instances are values [VObj cls fields]; an ImmutableDict is
+   [VIDict h] (its private _data is cell h).  [construct New ...] is the code
+   as it is now, [construct Old ...] the code before the fix of
+   ImmutableDict.__init__.  [observe] = (content read through the object's
+   handles, to_dict, hash key, hash(), id == compute_hash()).  [Hid] (the id
+   function) and [Hpy] (Python's hash) are arbitrary functions. *)
+From Coq Require Import List NArith Bool Arith Permutation.
+From SWH.lib Require Import Bytes.
+From SWH Require Import Generated.
 From SWH.model Require Import Frozen.
+From SWH.proofs Require Import FrozenProofs FrozenAliasProofs FrozenEqProofs FrozenMain.
+Import ListNotations.
+Local Open Scope nat_scope.
+
+(* For every class (every attrs class of model.py, the SWHID classes, bare
+   ImmutableDict), both construction routes, all argument values, every store,
+   every set [hs] of caller-held containers and EVERY sequence of caller
+   mutations (item assignment / deletion, clear, append, element assignment,
+   pop) of the containers in [hs]: if no container of [hs] is nested inside an
+   argument or given to an unvalidated field ([separated]: the containers of
+   [hs] are arguments themselves or unrelated), the whole observation of the
+   constructed object is unchanged. *)
+Theorem C11_no_alias : forall (hs : list handle) (Hid : rval -> atom) (Hpy : rval -> N)
+    g f s0 rt cls args o s1 ms,
+  separated (S g) s0 hs rt cls args = true ->
+  construct Hid New f rt cls s0 args = Ok (o, s1) ->
+  Forall (fun m => In (mut_target m) hs) ms ->
+  observe Hid Hpy g (apply_muts s1 ms) o = observe Hid Hpy g s1 o.
+Proof. exact no_alias. Qed.
+Print Assumptions C11_no_alias.
+
+(* the instance of the property text: [hs] = the containers passed as
+   arguments to the constructor *)
+Theorem C11_no_alias_args : forall Hid Hpy g f s0 cls args o s1 ms,
+  separated (S g) s0 (arg_handles args) Ctor cls args = true ->
+  construct Hid New f Ctor cls s0 args = Ok (o, s1) ->
+  Forall (fun m => In (mut_target m) (arg_handles args)) ms ->
+  observe Hid Hpy g (apply_muts s1 ms) o = observe Hid Hpy g s1 o.
+Proof. exact no_alias_args. Qed.
+Print Assumptions C11_no_alias_args.
+
+(* from_dict(d): [hs] may contain d and every container directly under d *)
+Theorem C11_no_alias_from_dict : forall Hid Hpy hs g f s0 cls d args o s1 ms,
+  from_dict_reads s0 cls d = Some args ->
+  separated (S g) s0 hs FromDict cls args = true ->
+  from_dict Hid New f cls s0 d = Ok (o, s1) ->
+  Forall (fun m => In (mut_target m) hs) ms ->
+  observe Hid Hpy g (apply_muts s1 ms) o = observe Hid Hpy g s1 o.
+Proof. exact no_alias_from_dict. Qed.
+Print Assumptions C11_no_alias_from_dict.
+
+(* every mutation channel on the object itself (setattr, delattr, item
+   assignment, item deletion) is answered by an error; store and object are
+   unchanged *)
+Theorem C11_no_write_op : forall s o c,
+  let '(e, s', o') := obj_mutate s o c in s' = s /\ o' = o.
+Proof. exact no_write_op. Qed.
+Print Assumptions C11_no_write_op.
+
+(* objects that compare equal have equal hashes, for every class of the
+   generated table, including the classes with eq=False fields *)
+Theorem C11_eq_hash : forall (Hpy : rval -> N) g s x y a b,
+  r_wf (resolve g s x) = true -> r_wf (resolve g s y) = true ->
+  obj_eqb g s x y = true ->
+  obj_hash Hpy (resolve g s x) = Ok a -> obj_hash Hpy (resolve g s y) = Ok b ->
+  a = b.
+Proof. exact eq_hash. Qed.
+Print Assumptions C11_eq_hash.
+
+(* side condition used by C11_eq_hash, evaluated on the tables generated from
+   /repo: in every class the eq fields are exactly the hash fields *)
+Theorem C11_eq_hash_fields_table : eq_hash_coherent ALL_CLASSES = true.
+Proof. exact eq_hash_fields_table. Qed.
+Print Assumptions C11_eq_hash_fields_table.
+
+(* ... and it is necessary: a table with a compared-but-not-hashed field has
+   unequal objects... (here: a hashed-not-compared direction is symmetrical) *)
+Theorem C11_eq_hash_needs_table :
+  eq_hash_coherent BAD_TABLE = false /\
+  exists x y, r_eqb BAD_TABLE x y = false /\ norm BAD_TABLE x = norm BAD_TABLE y /\ norm BAD_TABLE x <> None.
+Proof. exact eq_hash_needs_table. Qed.
+Print Assumptions C11_eq_hash_needs_table.
+
+(* the model's table of container-accepting fields agrees with the generated
+   tables (converter kinds only on fields that have a converter in the source) *)
+Theorem C11_arg_kinds_table : arg_kinds_coherent ALL_CLASSES = true.
+Proof. exact arg_kinds_table. Qed.
+Print Assumptions C11_arg_kinds_table.
+
+(* two objects with the same content are equal and hash alike, whatever
+   private cells they hold (objects built from the same arguments) *)
+Theorem C11_same_args_equal : forall (Hpy : rval -> N) g s x y,
+  resolve g s x = resolve g s y -> r_wf (resolve g s x) = true ->
+  obj_eqb g s x y = true /\ obj_hash Hpy (resolve g s x) = obj_hash Hpy (resolve g s y).
+Proof. exact same_content_equal. Qed.
+Print Assumptions C11_same_args_equal.
+
+Theorem C11_same_args_equal_example :
+  match run_twins ex_Hid New 6 (bs "Snapshot") ex_store ex_args ex_args with
+  | Ok (e12, e21, Some k1, Some k2) => e12 = true /\ e21 = true /\ k1 = k2
+  | _ => False
+  end.
+Proof. exact same_args_equal_example. Qed.
+Print Assumptions C11_same_args_equal_example.
+
+(* frozen mappings compare and hash independently of insertion order *)
+Theorem C11_idict_order_free : forall items items',
+  NoDup (map fst items) -> Permutation items items' ->
+  forallb (fun kv => r_wf (snd kv)) items = true ->
+  r_eqb ALL_CLASSES (RMap false items) (RMap false items') = true /\
+  norm ALL_CLASSES (RMap false items) = norm ALL_CLASSES (RMap false items').
+Proof. exact (idict_order_free ALL_CLASSES). Qed.
+Print Assumptions C11_idict_order_free.
+
+Theorem C11_idict_order_free_satisfiable :
+  let items := [(Ak "b", RAtom (Ak "1")); (Ak "a", RSeq false [RNone]); (Ak "c", RMap false [])] in
+  let items' := [(Ak "c", RMap false []); (Ak "b", RAtom (Ak "1")); (Ak "a", RSeq false [RNone])] in
+  NoDup (map fst items) /\ Permutation items items' /\ items <> items' /\
+  forallb (fun kv => r_wf (snd kv)) items = true /\ norm ALL_CLASSES (RMap false items) <> None.
+Proof. exact idict_order_free_satisfiable. Qed.
+Print Assumptions C11_idict_order_free_satisfiable.
+
+(* the code BEFORE the fix: same hypotheses, the observation changes and the
+   id goes stale (Snapshot(branches=d); d[k2] = v) *)
+Theorem C11_no_alias_refuted_old :
+  exists g f s0 cls args o s1 ms,
+    separated (S g) s0 (arg_handles args) Ctor cls args = true /\
+    construct ex_Hid Old f Ctor cls s0 args = Ok (o, s1) /\
+    Forall (fun m => In (mut_target m) (arg_handles args)) ms /\
+    observe ex_Hid ex_Hpy g (apply_muts s1 ms) o <> observe ex_Hid ex_Hpy g s1 o /\
+    id_ok ex_Hid (resolve g s1 o) = true /\
+    id_ok ex_Hid (resolve g (apply_muts s1 ms) o) = false.
+Proof. exact no_alias_refuted_old. Qed.
+Print Assumptions C11_no_alias_refuted_old.
+
+(* idem for Release(metadata=d): changes with Old, unchanged with New *)
+Theorem C11_no_alias_refuted_old_release :
+  exists ms,
+    separated 6 ex_store [0] Ctor (bs "Release") (rel_args (VRef 0) VNone EMPTY_BYTES) = true /\
+    match construct ex_Hid Old 5 Ctor (bs "Release") ex_store (rel_args (VRef 0) VNone EMPTY_BYTES) with
+    | Ok (o, s1) => observe ex_Hid ex_Hpy 5 (apply_muts s1 ms) o <> observe ex_Hid ex_Hpy 5 s1 o
+    | Err _ => False
+    end /\
+    match construct ex_Hid New 5 Ctor (bs "Release") ex_store (rel_args (VRef 0) VNone EMPTY_BYTES) with
+    | Ok (o, s1) => observe ex_Hid ex_Hpy 5 (apply_muts s1 ms) o = observe ex_Hid ex_Hpy 5 s1 o
+    | Err _ => False
+    end.
+Proof. exact no_alias_refuted_old_release. Qed.
+Print Assumptions C11_no_alias_refuted_old_release.
+
+(* current code, ill-typed argument: a list given as raw_manifest (a field
+   with neither validator nor converter) is kept as is *)
+Theorem C11_no_alias_refuted_unchecked_field :
+  exists s0 args ms,
+    separated 6 s0 (arg_handles args) Ctor (bs "Release") args = false /\
+    Forall (fun m => In (mut_target m) (arg_handles args)) ms /\
+    match construct ex_Hid New 5 Ctor (bs "Release") s0 args with
+    | Ok (o, s1) => observe ex_Hid ex_Hpy 5 (apply_muts s1 ms) o <> observe ex_Hid ex_Hpy 5 s1 o
+    | Err _ => False
+    end.
+Proof. exact no_alias_refuted_unchecked_field. Qed.
+Print Assumptions C11_no_alias_refuted_unchecked_field.
+
+(* the stricter reading of DESIGN section 7 kept visible: a list nested in a
+   metadata dict stays shared; mutating the dict itself changes nothing *)
+Theorem C11_nested_shared_example :
+  let s0 := [PyDict [(Ak "a", VRef 1)]; PyList [A "x"]] in
+  let args := rel_args (VRef 0) VNone EMPTY_BYTES in
+  separated 6 s0 [1] Ctor (bs "Release") args = false /\
+  separated 6 s0 [0] Ctor (bs "Release") args = true /\
+  match construct ex_Hid New 5 Ctor (bs "Release") s0 args with
+  | Ok (o, s1) =>
+      observe ex_Hid ex_Hpy 5 (apply_muts s1 [MAppend 1 (A "y")]) o <> observe ex_Hid ex_Hpy 5 s1 o /\
+      observe ex_Hid ex_Hpy 5 (apply_muts s1 [MSetItem 0 (Ak "b") (A "y"); MDelItem 0 (Ak "a")]) o = observe ex_Hid ex_Hpy 5 s1 o
+  | Err _ => False
+  end.
+Proof. exact nested_shared_example. Qed.
+Print Assumptions C11_nested_shared_example.
+
+(* non-vacuity *)
+Theorem C11_no_alias_satisfiable :
+  exists g f s0 cls args o s1 ms,
+    separated (S g) s0 (arg_handles args) Ctor cls args = true /\
+    construct ex_Hid New f Ctor cls s0 args = Ok (o, s1) /\
+    Forall (fun m => In (mut_target m) (arg_handles args)) ms /\
+    ms <> [] /\ arg_handles args <> [] /\
+    apply_muts s1 ms <> s1.
+Proof. exact no_alias_satisfiable. Qed.
+Print Assumptions C11_no_alias_satisfiable.
+
+Theorem C11_eq_hash_satisfiable :
+  let x := person "Ann" "a" in
+  let y := person "Ann" "b" in
+  x <> y /\ obj_eqb 5 [] x y = true /\
+  (exists a, obj_hash (fun r => match r with RObj _ [RAtom l] => N.of_nat (length l) | _ => 0%N end) (resolve 5 [] x) = Ok a /\
+             obj_hash (fun r => match r with RObj _ [RAtom l] => N.of_nat (length l) | _ => 0%N end) (resolve 5 [] y) = Ok a) /\
+  obj_eqb 5 [] x (person "Bob" "a") = false.
+Proof. exact eq_hash_satisfiable. Qed.
+Print Assumptions C11_eq_hash_satisfiable.
